@@ -104,7 +104,7 @@ class Axioms:
         dty = self.dest_ty(inst, t)
         h = None
         if raw.startswith(PANIC_PATHS):
-            ip.event("panic:call", inst, bi, raw.split("<")[0], t.get("span"))
+            ip.event("panic:call", inst, bi, raw.split("<")[0], t.get("span"), fid=fid)
             return DIVERGE
         # --- RNG
         if fn.get("res") == "unresolved" and (trait.startswith("rand::Rng") or trait.startswith("rand::TryRng") or trait.startswith("rand_core")):
